@@ -178,4 +178,4 @@ def body(case):
 
 
 def tests(tier):
-    return [TestSpec("schema-json", gen_case, body, {"quick": 3000, "thorough": 250000}, tape=3072)]
+    return [TestSpec("schema-json", gen_case, body, {"quick": 3000, "thorough": 250000}, tape=3072, fuzz={"thorough": 15000})]
